@@ -432,6 +432,27 @@ def _quantified(fnode, st):
                     q = 'forall' if q == 'exists' else 'exists'
                     p = cond.Not(p)
                 return q, unparse(g.target), unparse(g.iter), p
+            # a flag set by a search loop just before: `for e in C: if P: flag = True; break  else: flag = False; if flag: S`
+            if isinstance(t, ast.Name):
+                blk = pm.get(id(cur))
+                for fld in ('body', 'orelse', 'finalbody'):
+                    seq = getattr(blk, fld, None)
+                    if isinstance(seq, list) and cur in seq and seq.index(cur) > 0 and isinstance(seq[seq.index(cur) - 1], ast.For):
+                        lp2 = seq[seq.index(cur) - 1]
+                        sets = [x for x in ast.walk(lp2) if isinstance(x, ast.Assign) and len(x.targets) == 1 and
+                                isinstance(x.targets[0], ast.Name) and x.targets[0].id == t.id and isinstance(x.value, ast.Constant)]
+                        set_else = [x for x in sets if any(x is y for y in lp2.orelse)]
+                        set_body = [x for x in sets if x not in set_else]
+                        if len(set_else) == 1 and len(set_body) == 1 and isinstance(set_body[0].value.value, bool) and \
+                                set_body[0].value.value != set_else[0].value.value:
+                            g_if = pm.get(id(set_body[0]))
+                            if isinstance(g_if, ast.If) and any(isinstance(y, ast.Break) for y in g_if.body) and not g_if.orelse:
+                                found_val = set_body[0].value.value          # the flag when an element satisfied the test
+                                p = cond.formula(g_if.test)
+                                flag_needed = (not neg) if in_body else neg  # the flag value under which the statement runs
+                                if flag_needed == found_val:
+                                    return 'exists', unparse(lp2.target), unparse(lp2.iter), p
+                                return 'forall', unparse(lp2.target), unparse(lp2.iter), cond.Not(p)
             # the search loop: for e in C: if P: S; break   (S in the body of the if)
             loop = pm.get(id(cur))
             if isinstance(loop, ast.For) and in_body and any(isinstance(x, ast.Break) for x in cur.body) and not cur.orelse:
